@@ -488,10 +488,17 @@ def run(ctx):
     ctx.ob("R5", des_cs, "envelope keys {'value','options'} written == read", special_w == special_r == {"value", "options"},
            f"writer {sorted(special_w)}, reader {sorted(special_r)}")
     opt_keys = None
-    for s in function_stmts(pc):
-        if isinstance(s, ast.Assign) and isinstance(s.value, ast.Dict) and any(
-                isinstance(t, ast.Name) and "option" in t.id for t in s.targets):
-            opt_keys = _dict_keys(s.value)
+    from ..util import same_module_helpers
+    check_init0 = ix.cls("pandera/api/checks.py::Check").lookup("__init__")
+    for g_ in same_module_helpers(ix, pc):
+        for d_ in [n for n in walk_no_nested(g_.node) if isinstance(n, ast.Dict)]:
+            keys_ = _dict_keys(d_)
+            # the options dict: every key is a Check constructor option read from the attribute of the same name
+            if keys_ and all(k in check_init0.params and isinstance(v, ast.Attribute) and v.attr == k for k, v in keys_.items()) \
+                    and {"ignore_na", "raise_warning", "n_failure_cases"} & set(keys_):
+                opt_keys = keys_
+                break
+        if opt_keys is not None:
             break
     if opt_keys is None:
         raise AnalysisError("parse_checks: check options dict not found")
@@ -577,8 +584,15 @@ def run(ctx):
             raise AnalysisError(f"{f3.short}: dtype-aware statistic converter not found")
         # a converted value: a call of the converter, or (after the normaliser expanded an expression-like converter at its
         # call site) an expression that decides on the dtype kind
-        is_conv = lambda c: (isinstance(c, ast.Call) and isinstance(c.func, ast.Name) and c.func.id in conv_names) or \
-            (isinstance(c, ast.AST) and not isinstance(c, ast.Name) and _kind_decision(c))
+        def is_conv(c):
+            if not isinstance(c, ast.AST) or isinstance(c, ast.Name):
+                return False
+            if isinstance(c, (ast.DictComp, ast.ListComp, ast.GeneratorExp)):
+                vals = [c.value] if isinstance(c, ast.DictComp) else [c.elt]
+                return all(is_conv(v) for v in vals)
+            if isinstance(c, ast.Call) and isinstance(c.func, ast.Name) and c.func.id in conv_names:
+                return True
+            return _kind_decision(c)
         # locals filled from the converter (item stores in a loop, or a comprehension)
         filled = {}
         for s2 in function_stmts(f3):
